@@ -43,10 +43,13 @@ LEVEL_OVERRIDE = {
     'C16': ('other', 'Proof of the FOOTPRINT PREMISE only (every store of every function under contract lies inside its assigns clause = memory reachable '
                      'from its parameters; every static-lifetime object is const). The step from disjoint footprints to data-race freedom under every '
                      'schedule is the standard non-interference argument and is NOT mechanised; no schedule is explored.'),
-    'C18': ('other', 'Proof for the ACF-CAN listener receive path only (acf-can-listener.c:new_packet: arbitrary datagram 0..1500 bytes, arbitrary recv result, '
-                     'UDP/raw x TSCF/NTSCF x classic/FD symbolic; memory safety, termination via loop variant, returns >= 0). NOT covered: the CVF, AAF, '
-                     'hello-world (GPC), ACF-VSS and CRF listeners; printf("%s") on unterminated packet bytes (invisible to CBMC\'s printf model); '
-                     'reads of stale in-bounds bytes beyond the received length; main() loops and socket set-up.'),
+    'C18': ('other', 'Proof for the receive paths of THREE of the six listeners: acf-can-listener.c:new_packet (arbitrary datagram 0..1500 bytes, '
+                     'UDP/raw x TSCF/NTSCF x classic/FD symbolic), aaf-listener.c:new_packet and cvf-listener.c:new_packet with their helpers '
+                     '(is_valid_packet, schedule_sample / schedule_nal, get_h264_data_len, get_presentation_time, arm_timer), each function enforced '
+                     'against its own contract with callees replaced: memory safety, termination, queue stays well formed, and the listener gives up '
+                     '(-1) only if a system call failed. NOT covered: the hello-world (GPC), ACF-VSS and CRF listeners; timeout() paths; '
+                     'printf("%s") on unterminated packet bytes (invisible to CBMC\'s printf model); reads of stale in-bounds bytes beyond the '
+                     'received length; main() loops and socket set-up.'),
 }
 
 
